@@ -2,7 +2,7 @@
    Round trips are checked on the implementation (print with the library, parse back with the library, compare
    encodings); the decimal forms are compared with the exact expansions defined in TextModel.v, about which: *)
 From Coq Require Import ZArith List Lia.
-From UV Require Import Num TextModel.
+From UV Require Import Num TextModel TextProps.
 Import ListNotations.
 Local Open Scope Z_scope.
 
@@ -18,8 +18,16 @@ Theorem C16_parse_digits_append : forall l1 l2 acc v,
 Proof. exact parse_digits_app. Qed.
 Print Assumptions C16_parse_digits_append.
 
-(* kernel-evaluated instances of print/parse on the model (the for-all round trip of the model's own printer is a
-   stretch item; the implementation's round trips are what the correspondence decides) *)
+(* the model's decimal printer and parser are inverse, for every integer (unbounded): printing then parsing returns the number;
+   with judge_text this is what makes "decimal output = dec_of_Z value" and "parse of a digit string = its integer" one specification *)
+Theorem C16_decimal_roundtrip : forall z : Z, parse_int (dec_of_Z z) = Some z.
+Proof. exact parse_int_dec_of_Z. Qed.
+Print Assumptions C16_decimal_roundtrip.
+Theorem C16_decimal_digits_parse : forall z : Z, 0 <= z -> parse_digits 10 (dec_of_nat z) 0 = Some z.
+Proof. exact parse_dec_of_nat. Qed.
+Print Assumptions C16_decimal_digits_parse.
+
+(* kernel-evaluated instances of print/parse on the model (the implementation's round trips are what the correspondence decides) *)
 Example C16_witness :
   parse_int (dec_of_Z 123456789012345678901234567890) = Some 123456789012345678901234567890 /\
   parse_int (dec_of_Z (-4096)) = Some (-4096) /\ parse_int [48; 120; 102; 70] = Some 255 /\
